@@ -1,12 +1,150 @@
 import CTM.Drive.Util
+import CTM.Model.Procs
+import CTM.Generated.Skeleton
 open Lean
 
 namespace CTM.Drive.Procs
-open CTM CTM.Drive
+open CTM CTM.Drive CTM.Procs
 
-/-- ops of this module (stub: none yet) -/
-def handle : Handler := fun op _inp =>
+def parseCode (j : Json) : R ExitCode := asOption asInt j
+
+def parseKind (j : Json) : R Container := do
+  match ← asStr j with
+  | "list" => return .list
+  | "dict" => return .dict
+  | s => .error s!"container kind {s}"
+
+def jOutcome (r : Res) : Json :=
+  let s := r.state
+  let base := [("started", jNat s.started), ("procs", jList (jPair jNat jNat) s.procs),
+               ("file", jList jStr s.file), ("seeds", jList (jPair jNat jNat) s.seeds),
+               ("pollsLeft", jNat s.sched.length)]
+  match r with
+  | .ok _ => jObj (("outcome", jStr "ok") :: base)
+  | .failed c _ => jObj (("outcome", jStr "failed") :: ("code", jInt c) :: base)
+  | .spin _ => jObj (("outcome", jStr "spin") :: base)
+
+def nth (xs : List Int) (d : Int) (i : Nat) : Int := xs.getD i d
+def nthNat (xs : List Nat) (i : Nat) : Nat := xs.getD i i
+
+def jMerge : Merge → Json
+  | .appendRekey => jStr "appendRekey" | .sumCreationOrder => jStr "sumCreationOrder"
+  | .sortedKeys => jStr "sortedKeys" | .concatCreationOrder => jStr "concatCreationOrder"
+  | .dictByKey => jStr "dictByKey" | .unknown => jStr "unknown"
+
+def jStage (s : Stage) : Json :=
+  jObj [("name", jStr s.name),
+        ("container", jStr (match s.container with | .list => "list" | .dict => "dict")),
+        ("wellFormed", jBool (wellFormed s.prog)),
+        ("writes", jList jStr (writes s.prog)),
+        ("failureFiles", jList (jList jStr) (failureFiles s.prog)),
+        ("tryFinally", jBool s.tryFinally),
+        ("merge", jMerge s.merge)]
+
+def findStage (name : String) : R Stage :=
+  match CTM.Generated.stages.find? (fun s => s.name == name) with
+  | some s => .ok s
+  | none => .error s!"no stage {name}"
+
+def parseInner (j : Json) : R InnerRun := do
+  return { assignRaises := ← asBool (← field j "assignRaises"),
+           csvRequested := ← asBool (fieldD j "csvRequested" (Json.bool true)),
+           lateRaises := ← asBool (fieldD j "lateRaises" (Json.bool false)),
+           summaryRaises := ← asBool (fieldD j "summaryRaises" (Json.bool false)),
+           logRequested := ← asBool (fieldD j "logRequested" (Json.bool true)),
+           jsonRequested := ← asBool (fieldD j "jsonRequested" (Json.bool true)),
+           hdf5Requested := ← asBool (fieldD j "hdf5Requested" (Json.bool true)) }
+
+def jLogLine : LogLine → Json
+  | .info _ => jStr "info" | .success => jStr "success"
+  | .traceback => jStr "traceback" | .cleaningUp => jStr "cleaningUp"
+
+def jWorld (w : MappingWorld) : Json :=
+  jObj [("raised", jBool w.raised),
+        ("json", jOpt (jList jStr) w.json),
+        ("hdf5", jOpt (fun p => jObj [("metadata", jList jStr p.1), ("datasets", jList jStr p.2)]) w.hdf5),
+        ("csv", jBool w.csv),
+        ("log", jOpt (jList jLogLine) w.logFile)]
+
+def parseRecords (j : Json) : R (List (Nat × Nat)) := asList (asPair asNat asNat) j
+
+def handle : Handler := fun op inp =>
   match op with
+  | "procs.winnowList" => some do
+      let codes ← asList parseCode (← field inp "codes")
+      let ps := codes.zipIdx.map (fun (c, i) => (i, c))
+      match winnowList ps with
+      | .ok r => return jObj [("ok", jNats (r.map (·.1)))]
+      | .error c => return jObj [("err", jInt c)]
+  | "procs.winnowDict" => some do
+      let items ← asList (asPair asNat parseCode) (← field inp "items")
+      match winnowDict items with
+      | .ok r => return jObj [("ok", jNats (r.map (·.1)))]
+      | .error (k, c) => return jObj [("err", Json.arr #[jNat k, jInt c])]
+  | "procs.pollLoop" => some do
+      let kind ← parseKind (← field inp "kind")
+      let nItems ← asNat (← field inp "nItems")
+      let nProc ← asNat (← field inp "nProc")
+      let keys ← natList (fieldD inp "keys" (Json.arr #[]))
+      let sched ← asList natList (← field inp "sched")
+      let exit ← intList (← field inp "exit")
+      return jOutcome (pollLoop kind nItems nProc (nthNat keys) sched (nth exit 0))
+  | "procs.execStage" => some do
+      let st ← findStage (← asStr (← field inp "stage"))
+      let nItems ← asNat (← field inp "nItems")
+      let nProc ← asNat (← field inp "nProc")
+      let keys ← natList (fieldD inp "keys" (Json.arr #[]))
+      let sched ← asList natList (← field inp "sched")
+      let exit ← intList (← field inp "exit")
+      let blocked ← natList (fieldD inp "blocked" (Json.arr #[]))
+      return jOutcome (exec st.container
+        { nItems, nProc, keyOf := nthNat keys, exit := nth exit 0,
+          blocked := fun w => blocked.contains w }
+        st.prog { sched := sched })
+  | "procs.stages" => some do
+      return jList jStage CTM.Generated.stages
+  | "procs.mappingShape" => some do
+      return jObj [("matches", jBool (CTM.Generated.runMappingShape == expectedMappingShape))]
+  | "procs.runMapping" => some do
+      return jWorld (runMapping (← parseInner inp))
+  | "procs.blobToHdf5" => some do
+      let keys ← asList asStr (← field inp "keys")
+      let r := blobToHdf5 keys
+      return jObj [("metadata", jList jStr r.1), ("datasets", jList jStr r.2)]
+  | "procs.completionOrders" => some do
+      let n ← asNat (← field inp "nWorkers")
+      let p ← asNat (← field inp "nProc")
+      return jList jNats (completionOrders n p)
+  | "procs.reorderBlob" => some do
+      let blob ← parseRecords (← field inp "blob")
+      let order ← natList (← field inp "order")
+      return jOpt (jList (jPair jNat jNat)) (reorderBlob blob order)
+  | "procs.mergeAppendRekey" => some do
+      let per ← asList parseRecords (← field inp "perWorker")
+      let comp ← natList (← field inp "completion")
+      let order ← natList (← field inp "order")
+      return jOpt (jList (jPair jNat jNat)) (mergeAppendRekey (gather per comp) order)
+  | "procs.mergeKeyed" => some do
+      -- done = [(key, value)] in completion order; values are ids of opaque results
+      let disc ← asStr (← field inp "discipline")
+      let done ← parseRecords (← field inp "done")
+      let paths ← natList (fieldD inp "paths" (Json.arr #[]))
+      match disc with
+      | "sumCreationOrder" =>
+        -- buffers are numbers here; the sum is an exact Nat sum
+        return jOpt jNat (mergeSumCreationOrder (· + ·) 0 paths done)
+      | "sortedKeys" => return jOpt jNats (mergeSortedKeys done)
+      | "concatCreationOrder" => return jOpt jNats (mergeConcatCreationOrder paths done)
+      | "dictByKey" => return jList (jOpt jNat) (mergeDictByKey done paths)
+      | d => .error s!"discipline {d}"
+  | "procs.sortKeys" => some do
+      return jNats (sortKeys (← natList (← field inp "keys")))
+  | "procs.chunks" => some do
+      let n ← asNat (← field inp "nRows")
+      let p ← asNat (← field inp "nProc")
+      let cs ← asNat (← field inp "chunkSize")
+      let e := effChunk n p cs
+      return jObj [("effChunk", jNat e), ("chunks", jList (jPair jNat jNat) (chunks n e))]
   | _ => none
 
 end CTM.Drive.Procs
